@@ -24,6 +24,10 @@ pub struct SamParams {
     /// every record mapped (needs n_refs >= 1)
     #[serde(default)]
     pub all_mapped: bool,
+    /// no record placed although references exist (an unaligned BAM with a dictionary): its index has
+    /// no placed record at all
+    #[serde(default)]
+    pub all_unmapped: bool,
 }
 
 #[derive(Clone, Debug)]
@@ -74,6 +78,7 @@ pub fn gen_params(rng: &mut Rng, size_class: u8) -> SamParams {
         long_fields: rng.chance(1, 6),
         cram_safe: false,
         all_mapped: false,
+        all_unmapped: false,
     }
 }
 
@@ -326,7 +331,7 @@ pub fn generate(p: &SamParams) -> SamModel {
     // records: (ref index or None, pos, text)
     let mut recs: Vec<(usize, i64, String)> = Vec::with_capacity(p.n_records);
     for _ in 0..p.n_records {
-        let mapped = !refs.is_empty() && (rng.chance(5, 6) | p.all_mapped);
+        let mapped = !refs.is_empty() && !p.all_unmapped && (rng.chance(5, 6) | p.all_mapped);
         let read_len = if p.max_len == 0 { 0 } else if rng.chance(1, 10) { 0 } else { 1 + rng.usize_below(p.max_len) };
         let read_len = if p.cram_safe && read_len == 0 { 1 + rng.usize_below(p.max_len.max(1)) } else { read_len };
         let name = gen_name(&mut rng, p.long_fields);
